@@ -1,7 +1,7 @@
 #!/bin/sh
-# usage: tools/confirm_seed.sh <PROP> <k> <srcdir>   e.g. C18 1 /tmp/seed_C18/out
+# usage: tools/confirm_seed.sh <PROP> <k> <srcdir> [dest-index]   e.g. C18 1 /tmp/seed_C18/out   (dest-index: number used in /verif/seeded/<PROP>-<n>, default k)
 # Confirms a seeded change in a scratch worktree: applies, demo fails with / passes without, full existing suite passes with it.
-P=$1; K=$2; SRC=$3; ID=$P-$K
+P=$1; K=$2; SRC=$3; N=${4:-$K}; ID=$P-$N
 DST=/verif/seeded/$ID; WT=/tmp/confirm_$ID
 mkdir -p $DST
 cp $SRC/patch_$K.diff $DST/patch.diff; cp $SRC/demo_$K.py $DST/demo.py; cp $SRC/notes_$K.md $DST/notes.md 2>/dev/null
